@@ -90,6 +90,8 @@ class TraceLoader(SourceFileLoader):
         self._rewrote_source: bool = False
         # code object obtained by exec_module ahead of running the module
         self._code_for_exec: Optional[Tuple[str, CodeType]] = None
+        self._in_exec_module: bool = False
+        self._rewritten_source_path: str = ""
 
     @property
     def _tracers(self) -> List["BaseTracer"]:
@@ -234,9 +236,24 @@ class TraceLoader(SourceFileLoader):
             prepared = self._code_for_exec[1]
             self._code_for_exec = None
             return prepared
-        if all(tracer.bytecode_caching_allowed for tracer in self._tracers):
+        caching_allowed = all(
+            tracer.bytecode_caching_allowed for tracer in self._tracers
+        )
+        if caching_allowed and not self._in_exec_module and self._needs_node_table(
+            fullname
+        ):
+            # runpy and other callers run the code themselves, without exec_module: nothing would load
+            # the node table that belongs to cached bytecode.  Compile from source, touch no cache.
+            caching_allowed = False
+        if caching_allowed:
+            rewrote_before, self._rewrote_source = self._rewrote_source, False
             with self.patch_cache_handlers():
                 code = super().get_code(fullname)
+            if self._rewrote_source:
+                # compiled now, so the cache entry is (re)written: the node table next to it described
+                # the previous bytecode
+                self._discard_node_table(self._rewritten_source_path)
+            self._rewrote_source = self._rewrote_source or rewrote_before
         else:
             source_path = self.get_filename(fullname)
             source_bytes = self.get_data(source_path)
@@ -244,6 +261,41 @@ class TraceLoader(SourceFileLoader):
         if code is not None:
             self._register_guards(code)
         return code
+
+    def _needs_node_table(self, fullname) -> bool:
+        source_path = str(super().get_filename(fullname))
+        return any(
+            tracer.requires_ast_bookkeeping
+            for tracer in self.get_tracers_for_path(source_path)
+        )
+
+    def _node_table_path(self, source_path: str) -> str:
+        root, ext = os.path.splitext(source_path)
+        sig = self.make_cache_signature(source_path)
+        cache_path = orig_cache_from_source(
+            source_path if sig == "pyccolo" else f"{root}{os.path.extsep}{sig}{ext}",
+            debug_override=None,
+            optimization=None,
+        )
+        return os.path.splitext(cache_path)[0] + ".pkl"
+
+    def _discard_node_table(self, source_path: str) -> None:
+        if sys.dont_write_bytecode:
+            # the cache entry is not rewritten either: the old pair stays as it is
+            return
+        try:
+            os.remove(self._node_table_path(source_path))
+        except OSError:
+            pass
+
+    @staticmethod
+    def _load_node_table(pickle_path: str):
+        # like the bytecode, the table is only a cache: one that is missing or cannot be read is no table
+        try:
+            with open(pickle_path, "rb") as f:
+                return pickle.load(f)
+        except Exception:
+            return None
 
     def get_augmented_source(self, source_path) -> str:
         source_bytes = super().get_data(source_path)
@@ -280,6 +332,7 @@ class TraceLoader(SourceFileLoader):
                     tracers_for_path, path_str
                 ):
                     self._rewrote_source = True
+                    self._rewritten_source_path = path_str
                     return compile(
                         self._ast_rewriter.visit(ast.parse(data)),
                         path,
@@ -333,6 +386,7 @@ class TraceLoader(SourceFileLoader):
             tracer = tracers[-1]
         should_reenable_saved_state.reverse()
         num_handled = 0
+        was_in_exec_module, self._in_exec_module = self._in_exec_module, True
         try:
             if pickle_path is not None and tracer is not None:
                 # the pickled node table belongs to the cached bytecode: find out first whether the code
@@ -341,8 +395,9 @@ class TraceLoader(SourceFileLoader):
                 code = self.get_code(module.__name__)
                 # True: compiled now, and the bytecode cache entry (re)written if that is possible at all
                 table_is_fresh = self._rewrote_source
-                if not table_is_fresh and not os.path.exists(pickle_path):
-                    # cached bytecode without its node table: do not use it
+                table = None if table_is_fresh else self._load_node_table(pickle_path)
+                if not table_is_fresh and table is None:
+                    # cached bytecode without its (readable) node table: do not use it
                     code = self.source_to_code(self.get_data(source_path), source_path)
                     self._register_guards(code)
                 elif not table_is_fresh:
@@ -355,8 +410,7 @@ class TraceLoader(SourceFileLoader):
                         tracer.remove_bookkeeping(
                             old_bookkeeping, old_bookkeeping.module_id
                         )
-                    with open(pickle_path, "rb") as f:
-                        new_bookkeeping, remapping = pickle.load(f).remap(id(module))
+                    new_bookkeeping, remapping = table.remap(id(module))
                     tracer.add_bookkeeping(new_bookkeeping, id(module))
                     tracer.node_id_remapping_by_fname[source_path] = remapping
                 if code is not None:
@@ -369,11 +423,17 @@ class TraceLoader(SourceFileLoader):
                 and not sys.dont_write_bytecode
             ):
                 # like the bytecode, the node table is only a cache: where it cannot be written, go without
+                tmp_path = f"{pickle_path}.{os.getpid()}.tmp"
                 try:
-                    with open(pickle_path, "wb") as f:
+                    with open(tmp_path, "wb") as f:
                         pickle.dump(tracer.ast_bookkeeper_by_fname[source_path], f)
+                    os.replace(tmp_path, pickle_path)
                 except OSError:
-                    pass
+                    # a partial file is worse than none
+                    try:
+                        os.remove(tmp_path)
+                    except OSError:
+                        pass
             for tracer, should_reenable in zip(
                 tracers, should_reenable_saved_state
             ):
@@ -384,6 +444,7 @@ class TraceLoader(SourceFileLoader):
                 if should_reenable:
                     tracer._enable_tracing()
         finally:
+            self._in_exec_module = was_in_exec_module
             # the module body (or its compilation) may raise: the tracers switched off above
             # must not stay off for the rest of their tracing context
             for tracer, should_reenable in list(
